@@ -179,7 +179,25 @@ impl StorageEngine {
     fn get_shard(&self, db: DatabaseIndex, key: &[u8]) -> Result<&Arc<RwLock<DatabaseShard>>> {
         let database = self.databases.get(db).ok_or(StorageError::InvalidDatabase)?;
         let shard_idx = self.get_shard_index(key);
-        Ok(&database.shards[shard_idx])
+        let shard = &database.shards[shard_idx];
+        
+        // Lazy expiration at the one place every keyed operation passes through: a key that is
+        // past its deadline is removed before the operation looks at it, so it is absent to
+        // every command of every type whether or not the sweeper has run yet
+        let expired = shard.read().unwrap().data.get(key).map_or(false, |stored_value| stored_value.is_expired());
+        if expired {
+            let mut shard_guard = shard.write().unwrap();
+            if shard_guard.data.get(key).map_or(false, |stored_value| stored_value.is_expired()) {
+                if let Some(stored_value) = shard_guard.data.remove(key) {
+                    shard_guard.expiring_keys.remove(key);
+                    shard_guard.mark_modified(key);
+                    let memory_size = self.calculate_value_size(key, &stored_value.value);
+                    self.memory_manager.remove_memory(memory_size);
+                }
+            }
+        }
+        
+        Ok(shard)
     }
     
     /// Set a string value
